@@ -58,7 +58,48 @@ fn requests() -> Vec<Req> {
     out
 }
 
+/// Independent applicability of the pool's rules (option semantics, not the real matcher): every
+/// `||x.com^` rule applies to requests to x.com and its sub-domains, of any type and party; the
+/// one path rule applies to script requests whose URL contains `/ad.js`.
+fn applies(rule: &str, rq: &Req) -> bool {
+    let host = rq.url.split("://").nth(1).unwrap_or("").split('/').next().unwrap_or("");
+    if rule.starts_with("/ad.js$") {
+        return rq.url.contains("/ad.js") && rq.ty == "script";
+    }
+    host == "x.com" || host.ends_with(".x.com")
+}
+
+fn check_independent(items: &[&str], reqs: &[Req], l: &mut Local) {
+    use vh::oracle::netspec as ns;
+    let e = vh::netsweep::build_engine(items, &[], false, true);
+    let store = ns::std_res_spec();
+    for rq in reqs {
+        let option_of = |r: &str| r.rsplit_once('$').and_then(|(_, o)| o.split(',').find_map(|x| x.strip_prefix("redirect=").or_else(|| x.strip_prefix("redirect-rule=")))).map(|s| s.to_string());
+        let cands: Vec<String> = items.iter().filter(|r| !r.starts_with("@@") && applies(r, rq)).filter_map(|r| option_of(r)).collect();
+        let excs: Vec<String> = items.iter().filter(|r| r.starts_with("@@") && applies(r, rq)).filter_map(|r| option_of(r)).collect();
+        let exp = ns::spec_redirect(&cands, &excs, &store);
+        let got = vh::util::catch(|| e.check_network_request(&rq.req).redirect);
+        l.compared += 1;
+        l.transitions += 1;
+        match got {
+            Ok(g) if exp.accepts(&g) => {}
+            other => l.mismatch(vh::Mismatch {
+                sig: "c13.redirect.rule-applicability".into(),
+                what: format!("list {:?} request ({}, {}, {}): option semantics give {:?}, engine {:?}", items, rq.url, rq.source, rq.ty, exp, other),
+                case: serde_json::json!({"rules": items, "hosts": [], "tags": [], "url": rq.url, "source": rq.source, "type": rq.ty, "resources": true, "independent": true}),
+                size: (items.len() * 10000 + rq.url.len()) as u64,
+            }),
+        }
+    }
+}
+
 fn replay(case: &Value, l: &mut Local) {
+    if case["independent"].as_bool() == Some(true) {
+        let rules: Vec<String> = case["rules"].as_array().map(|a| a.iter().filter_map(|v| v.as_str().map(|s| s.to_string())).collect()).unwrap_or_default();
+        let items: Vec<&str> = rules.iter().map(|s| s.as_str()).collect();
+        check_independent(&items, &requests(), l);
+        return;
+    }
     let res = case["resources"].as_bool().unwrap_or(true);
     vh::netsweep::replay_case("c13", case, l, res);
 }
@@ -82,6 +123,10 @@ fn check(ctx: &Ctx) -> i32 {
         let sample = l.samples.len() < 2 && (i + ctx.seed) % 7919 == 11;
         vh::netsweep::check_list("c13", &items, &reqs, l, sample, true);
         vh::netsweep::check_list("c13.empty-store", &items, &reqs, l, false, false);
+        if idx.len() <= 2 {
+            let plain: Vec<&str> = idx.iter().map(|&j| pool[j].as_str()).collect();
+            check_independent(&plain, &reqs, l);
+        }
     });
     if k >= 4 {
         // thorough: every ordered list of exactly 4 rules
